@@ -4,18 +4,27 @@ from fractions import Fraction as F
 
 from props import _units as X
 from props import _ufault as UF
+from props import _uwrite as UW
 
 ID = "C08"
 SECTIONS = ["units"]
 LEAN_MODULES = ["QExPy.Props.C08"]
+LEMMA_MODULES = ["QExPy.Lemmas.Units", "QExPy.Lemmas.ParseSpec", "QExPy.Lemmas.DefReqs"]
 THEOREMS = ["QExPy.C08_dispatch", "QExPy.C08_order_insensitive", "QExPy.C08_mismatch",
             "QExPy.C08_addsub_empty", "QExPy.C08_perm", "QExPy.C08_exponents",
-            "QExPy.C08_no_zero_entries", "QExPy.C08_dim"]
+            "QExPy.C08_no_zero_entries", "QExPy.C08_dim", "QExPy.C08_leaf_written",
+            "QExPy.C08_written_forms_agree", "QExPy.C08_written", "QExPy.C08_after_history"]
 RULE = ("seeded unit-expression trees of depth <= 5 over {+,-,*,/,**k (k in +-1..3, 1/2, 1/3, 2/3, "
         "3/2), sqrt, neg, number operands}, 1-4 symbols, integer leaf exponents +-1..4, leaf units "
         "written in random factor order with '*' or the dot; the operands of every +/- are "
         "dimension-equal but built by a different random route (leaf in another order, products, "
-        "quotients, roots, powers); plus a stream of genuine mismatches at the root.  The result's "
+        "quotients, roots, powers); plus a stream of genuine mismatches at the root.  Leaf units are "
+        "also WRITTEN in every form of the unit grammar (chains of / and * at one level such as "
+        "kg/s^2*m^2 and m/s/s, a symbol more than once, brackets, implicit multiplication, powers "
+        "under a /, the bare numerator 1/): the meaning of the string is the map it was written for, "
+        "checked by two readings of the harness; and formulas are evaluated at the end of HISTORIES "
+        "in which compound units were defined (for the dimension of the result, of an operand, a "
+        "power of it, a symbol the formula uses), used, and cleared again.  The result's "
         "unit string is read back with the library's parser and compared as an exponent map with "
         "(a) exact dimensional analysis on Fractions (independent oracle) and (b) the Lean model "
         "`unitOf`; the warning flag is compared as a boolean.  Non-trivial = the tree contains a "
@@ -33,7 +42,11 @@ LEVEL_TEXT = ("Lean 4 theorems over an exact list/Rat model of units.py whose op
               "attaches to the result has, symbol by symbol, the exponents of exact dimensional analysis, "
               "and a warning is raised at a +/- exactly when the operands' dimensions differ), "
               "C08_order_insensitive / C08_perm (the outcome does not depend on the written order of the "
-              "factors), C08_mismatch, C08_exponents, C08_no_zero_entries.  The model is tied to the code by "
+              "factors), C08_mismatch, C08_exponents, C08_no_zero_entries; C08_leaf_written / C08_written / "
+              "C08_written_forms_agree (a leaf created with ANY unit string the reference grammar reads as u "
+              "carries u, so formulas typed with unit strings are covered by C08_dim); C08_after_history "
+              "(after any define / clear history that ends with no definition active the formula gets the "
+              "unit of a fresh session).  The model is tied to the code by "
               "a differential run on seeded trees and by an independent Fraction oracle; a proof is the "
               "right level because the claim quantifies over all trees and orders, which tests sample")
 LEVEL_NOTE = ("proved of the Lean model for all trees; binary64 exponent arithmetic (thirds) is outside the "
@@ -47,6 +60,9 @@ def related(rng, t, kind):
     leaf unit written in the reverse factor order"""
     if kind == "same":
         return t
+    if kind == "leaves-respelled":
+        r = UW.rewrite_leaves(rng, t, 1.0)
+        return r if r != t else None
     if kind == "leaves-rewritten":
         def rew(x):
             if x[0] == "leaf":
@@ -69,6 +85,90 @@ def related(rng, t, kind):
     p = min(paths, key=len) if rng.random() < 0.6 else rng.choice(paths)
     nd = UF._get(t, p)
     return UF._set(t, p, ["node", nd[1], [nd[2][1], nd[2][0]]])
+
+
+PAST_KINDS = ["result-named", "operand-named", "power-named", "plain-symbol", "evaluated-under-name",
+              "redefined", "chain", "rejected-after-clear", "cleared-twice"]
+PAST_NAMES = ["N", "J", "Pa", "Wb", "Oh", "Vv"]          # none is a symbol of X.SYMS
+CHAIN = [("N", "kg*m/s^2", [("kg", 1), ("m", 1), ("s", -2)]), ("J", "N*m", [("N", 1), ("m", 1)]),
+         ("W", "J/s", [("J", 1), ("s", -1)])]
+
+
+def _define(rng, name, u):
+    """a definition step for the integer map u, its expression in a random written form"""
+    s = UW.write_unit(rng, u)[0]
+    return ["define", name, s, UW.ordered_json(u, s)]
+
+
+def past_history(rng, kind):
+    """[define .., (evaluations under the names), clear, (rejected definitions), eval t]: a
+    history that ENDS in C08's domain; None when the drawn formula does not fit the kind"""
+    name, name2 = rng.sample(PAST_NAMES, 2)
+    syms = rng.sample(X.SYMS[:8], rng.randint(2, 3))
+    if kind == "plain-symbol":
+        syms = syms[:2] + [name]          # the formula uses the former name as a plain symbol
+    t = X.gen_tree(rng, rng.choice([1, 2, 2, 3]), syms, constdiv=True)
+    if t[0] == "leaf" or X.tree_size(t) > 30:
+        return None
+    d = X.dim_tree(t, {})
+    if d[0] != "ok" or not X.ok_exps(d[1]) or not X.float_ok(t, {}):
+        return None
+    if any(X.dim_tree(x, {})[0] == "ok" and not X.ok_exps(X.dim_tree(x, {})[1])
+           for x in X.subtrees(t) if x[0] != "const"):
+        return None
+    if kind == "plain-symbol" and name not in X.tree_syms(t):
+        return None
+    if rng.random() < 0.4:
+        t = UW.rewrite_leaves(rng, t, 0.6)
+
+    def ints(dd, c=F(1)):
+        v = [(k, e * c) for k, e in sorted(dd.items())]
+        rng.shuffle(v)
+        return v if v and all(e.denominator == 1 and 0 < abs(e) <= 9 for _, e in v) else None
+    sub = [X.dim_tree(x, {}) for x in X.subtrees(t)[1:] if X.unwrap(x)[0] != "const"]
+    sub = [x[1] for x in sub if x[0] == "ok"]
+    end = [["clear"]]
+    if kind == "result-named":
+        u = ints(d[1])
+        pre = u and [_define(rng, name, u)]
+    elif kind == "operand-named":
+        u = sub and ints(rng.choice(sub))
+        pre = u and [_define(rng, name, u)]
+    elif kind == "power-named":
+        c = rng.choice([F(1, 2), F(2), F(-1), F(1, 3), F(-2), F(3)])
+        u = ints(d[1], c)
+        pre = u and [_define(rng, name, u)]
+    elif kind == "plain-symbol":
+        u = X.rand_units(rng, [s_ for s_ in X.SYMS[:8] if s_ != name], 1, 3, emax=2)
+        pre = [_define(rng, name, u)]
+    elif kind == "evaluated-under-name":
+        u = ints(d[1])
+        pre = u and [_define(rng, name, u), ["eval", t, {"nojudge": True, "keep": True}]]
+    elif kind == "redefined":
+        u = ints(d[1])
+        pre = u and [_define(rng, name, X.rand_units(rng, X.SYMS[:8], 1, 3, emax=2)),
+                     _define(rng, name, u), _define(rng, name2, u)]
+    elif kind == "chain":
+        pre = [["define", a, b, X.units_json([(k, F(e)) for k, e in c])]
+               for a, b, c in CHAIN[:rng.randint(1, 3)]]
+        if rng.random() < 0.5:
+            pre.append(["eval", t, {"nojudge": True, "keep": True}])
+    elif kind == "rejected-after-clear":
+        u = ints(d[1])
+        bad = UF.bad_define(rng, (), syms)
+        pre = u and [_define(rng, name, u)]
+        end = [["clear"], ["define-bad"] + bad, ["define-bad", name, X.unit_string(u or [("m", F(1))]) + ")",
+                                                "redefinition-bad-expression"]]
+    elif kind == "cleared-twice":
+        u = ints(d[1])
+        pre = u and [_define(rng, name, u), ["clear"], _define(rng, name2, u)]
+        end = [["clear"], ["clear"]]
+    else:
+        raise ValueError(kind)
+    if not pre:
+        return None
+    # under the definitions of the past the formula must at least be evaluable by the oracle
+    return pre + end + ([["style", True]] if rng.random() < 0.15 else []) + [["eval", t]]
 
 
 def gen_cases(rng, n):
@@ -111,6 +211,8 @@ def gen_cases(rng, n):
             t = r[0]
             if rng.random() < 0.3:
                 t = UF.vary_types(rng, t)
+            if rng.random() < 0.4:
+                t = UW.rewrite_leaves(rng, t, 0.7, tags=tags)
             if not X.float_ok(t, {}):
                 skipped += 1
                 tags["not-judged:binary64-decision:" + r[1]] += 1
@@ -133,7 +235,8 @@ def gen_cases(rng, n):
             t1 = X.gen_tree(rng, rng.choice([1, 2, 2, 3]), syms, constdiv=True)
         if t1 is None or t1[0] == "leaf" or X.tree_size(t1) > 30:
             continue
-        kind = rng.choice(["same", "operands-exchanged", "operands-exchanged", "leaves-rewritten"])
+        kind = rng.choice(["same", "operands-exchanged", "operands-exchanged", "leaves-rewritten",
+                           "leaves-respelled"])
         t2 = related(rng, t1, kind)
         if t2 is None:
             continue
@@ -147,6 +250,69 @@ def gen_cases(rng, n):
         cases.append(h)
         tags["history:then-related-formula:" + kind + (":mismatch" if ds[0][0] == "mismatch" else "")] += 1
         made += 1
+    # WRITTEN FORMS (deliberate, every form several times per run): "all unit assignments" — the
+    # unit of a leaf is what the user typed: chains of / and * at one level (kg/s^2*m^2, m/s/s),
+    # a symbol written more than once (m*m, kg*m^3/(s^2*m)), brackets, implicit multiplication,
+    # powers under a /, the bare numerator 1/.  The meaning of every string is the map it was
+    # written FOR (checked by the harness's two own readings, `_uwrite.write_unit`); each form is
+    # used as an operand of +/- against another spelling (no mismatch), of * and / and under a
+    # power and a root
+    per_form = max(4, n // 60)
+    for form in UW.FORMS:
+        made = tries = 0
+        while made < per_form and tries < 40 * per_form:
+            tries += 1
+            syms = rng.sample(X.SYMS, rng.randint(1, 4))
+            u = X.rand_units(rng, syms, 1, 4, emax=4)
+            sw, got = UW.write_unit(rng, u, form)
+            if got != form:
+                continue
+            lw = ["leaf", UW.ordered_json(u, sw), sw]
+            d = {k: e for k, e in u}
+            c = made % 5
+            if c in (0, 1):       # against another spelling / another route: not a mismatch
+                other = (UW.rewrite_leaves(rng, ["leaf", X.units_json(u), X.unit_string(u)], 1.0)
+                         if c == 0 else X.route(rng, d, 1))
+                args = [lw, other] if rng.random() < 0.5 else [other, lw]
+                t = ["node", rng.choice(["add", "sub"]), args]
+            elif c == 2:
+                o2 = X.gen_tree(rng, 1, syms, constdiv=True)
+                t = ["node", rng.choice(["mul", "div"]), [lw, o2] if rng.random() < 0.5 else [o2, lw]]
+            elif c == 3:
+                k = rng.choice(X.POWERS)
+                t = ["powc", lw, k.numerator, k.denominator]
+            else:                 # a near miss of the written unit must still be a mismatch
+                d2 = X.near_miss(rng, d, rng.choice(X.NEAR_KINDS))
+                if d2 is None:
+                    continue
+                t = ["node", rng.choice(["add", "sub"]), [lw, X.route(rng, d2, 1)]]
+            dd = X.dim_tree(t, {})
+            if dd[0] not in ("ok", "mismatch") or (dd[0] == "ok" and not X.ok_exps(dd[1])) \
+                    or not X.float_ok(t, {}) or X.tree_size(t) > 40:
+                continue
+            if rng.random() < 0.25:
+                t = UF.vary_types(rng, t)
+                if not X.float_ok(t, {}):
+                    continue
+            cases.append([["eval", t]])
+            tags["written-form:" + form + (":mismatch" if dd[0] == "mismatch" else "")] += 1
+            made += 1
+    # A PAST THAT HAS ENDED (deliberate): C08's domain is "no compound-unit definitions active" at
+    # the time of the evaluation.  Names were defined earlier in the session — for exactly the
+    # dimension of the judged result or of one of its operands, for a power of it, for a symbol
+    # the formula uses as a plain symbol; formulas were evaluated under them — and then
+    # clear_unit_definitions() was called (possibly followed by rejected definitions).  The
+    # history is part of the input
+    for kind in PAST_KINDS:
+        made = tries = 0
+        while made < max(4, n // 80) and tries < 400:
+            tries += 1
+            h = past_history(rng, kind)
+            if h is None:
+                continue
+            cases.append(h)
+            tags["history:defined-then-cleared:" + kind] += 1
+            made += 1
     n += len(cases)
     while len(cases) < n:
         depth = rng.choice([2, 3, 3, 4, 4, 5])
@@ -176,10 +342,19 @@ def gen_cases(rng, n):
         # the same formula with other argument types, after requests that are rejected, or
         # recalculated after such requests (deliberate: about two thirds of the trees)
         t, _ = UF.decorate(rng, t)
+        if rng.random() < 0.5 and X.unwrap(t)[0] != "leaf":    # (C08 judges calculated quantities)
+            t = UW.rewrite_leaves(rng, t, 0.6, tags=tags)     # leaf units in other written forms
         if not X.float_ok(t, {}):
             skipped += 1
+            tags["not-judged:" + ("Fraction-with-longdouble-exponents (Python refuses the product)"
+                                  if X.refused_by_python(t, {}) else "binary64-decision")] += 1
             continue
-        cases.append([["eval", t]])
+        if rng.random() < 0.15:
+            # the same under the other display style (the unit is read back through the parser)
+            cases.append([["style", True], ["eval", t]])
+            tags["history:fraction-style"] += 1
+        else:
+            cases.append([["eval", t]])
     return cases, skipped, tags
 
 
